@@ -240,12 +240,20 @@ def candidates(rng, f, n, env=None):
     elif fam == "bytes":
         pool = [b"", b"\x00\xff", b"plain", "text", "\u00e9", bytearray(b"x"), b"x" * 100, "", "YWJj", b"\x80abc",
                 # text that reads like some encoding of bytes: it is text all the same
-                "de:ad:be:ef", "DE-AD-BE-EF", "00:11", "deadbeef", "0xdead", "ab cd", "\\x00\\xff", "b'raw'", "aGVsbG8="]
+                "de:ad:be:ef", "DE-AD-BE-EF", "00:11", "deadbeef", "0xdead", "ab cd", "\\x00\\xff", "b'raw'", "aGVsbG8=",
+                # bytes whose base64 text consists of hexadecimal digits only (and the other way round)
+                __import__("base64").b64decode("deadbeefcafef00d"), __import__("base64").b64decode("0123456789abcdef0123456789abcdef"),
+                bytes(48), bytes.fromhex("00112233445566778899aabbccddeeff"), b"QUJD", b"0123456789abcdef"]
     elif fam == "secure":
         pool = ["tk%016x" % rng.getrandbits(64), "", "pass word", "\u00e9\u4e2d", "x" * 50, "a", "p" * 16, "q" * 32, "\u00e9" * 8,
                 "sixteen-bytes-ok" + chr(1), "r" * 48, "block-aligned-16"]
     elif fam == "challenge":
-        pool = ["pw", b"pw", "", b"", "\u00e9", "x" * 200, "abcd:efgh", "user:pass", ":", "QUJD:REVG", "a:b", DigestSpec(f["params"].get("hash_algorithm", "sha256"), "pw"),
+        _alg = f["params"].get("hash_algorithm", "sha256").lower()
+        _n = __import__("hashlib").new(_alg).digest_size
+        pool = ["pw", b"pw", "", b"", "\u00e9", "x" * 200, "abcd:efgh", "user:pass", ":", "QUJD:REVG", "a:b",
+                # imported digests whose salt is longer / shorter than the digest
+                DigestSpec(_alg, "pw", bytes(range(_n + 8)), raw=True), DigestSpec(_alg, b"\x00\x01", bytes(range(2 * _n)), raw=True),
+                DigestSpec(_alg, "pw", b"s", raw=True), DigestSpec(f["params"].get("hash_algorithm", "sha256"), "pw"),
                 DigestSpec(f["params"].get("hash_algorithm", "sha256"), b"\x00\x01")]
     elif fam == "any":
         pool = WILD
